@@ -505,7 +505,13 @@ class DataLoader(object):
             # since we need to decode the messages to see if they have valid timestamps. The index only stores P1 time,
             # not system time. The read_next() call below will apply this condition and only return messages with valid
             # system time.
+            #
+            # The same applies to every other criterion that is only tested when a message is read: the index does not
+            # store source identifiers, and whether a message carries P1 time at all is checked by read_next(). Slicing
+            # the index first would count entries that are then dropped, returning fewer than N messages. In those
+            # cases the message count / circular buffer below applies the limit instead.
             if (max_messages is not None and self.reader.have_index() and
+                    source_ids is None and not require_p1_time and
                     not (require_system_time and system_time_messages_requested)):
                 reader_max_messages_applied = True
                 if max_messages >= 0:
